@@ -97,3 +97,16 @@ pub fn ref_verify_id_signature(pubkey: &discv5::enr::CombinedPublicKey, ephem_pu
         _ => false,
     }
 }
+
+/// Independent statement of "contactable in the node's IP mode" (documented behaviour of
+/// `IpMode`): IPv4 mode needs an IPv4 UDP endpoint; IPv6 mode a canonical IPv6 UDP endpoint (an
+/// IPv4-mapped address in the IPv6 field does not count); dual stack either, IPv6 preferred.
+pub fn ref_contactable(mode: &discv5::IpMode, enr: &Enr) -> Option<SocketAddr> {
+    let v4 = enr.udp4_socket().map(SocketAddr::V4);
+    let v6 = enr.udp6_socket().filter(|s| s.ip().to_ipv4_mapped().is_none()).map(SocketAddr::V6);
+    match mode {
+        discv5::IpMode::Ip4 => v4,
+        discv5::IpMode::Ip6 => v6,
+        discv5::IpMode::DualStack => v6.or(v4),
+    }
+}
